@@ -24,7 +24,7 @@ var Flavors = []string{
 	"fresh-v1", "fresh-v2", "chain-v1", "chain-v2", "stale-v2", "conflict-v1", "conflict-v2",
 	"set-conflict-v1", "set-conflict-v2", "set-invalid-v1", "set-invalid-v2", "partly-known-v1", "partly-known-v2",
 	"known-v1", "known-v2", "child-only-v1", "child-only-v2", "builder", "wrong-basis-v2", "corrupt-proof-v2", "empty-v1", "empty-v2",
-	"dup-v1", "dup-v2",
+	"dup-v1", "dup-v2", "resubmit-v1", "resubmit-v2", "known-and-conflict-v1", "known-and-conflict-v2",
 }
 
 func (r *Runner) v1ok() bool {
@@ -76,17 +76,47 @@ func (r *Runner) usedInputs() []types.SiacoinElement {
 	return out
 }
 
-func fee(g *rng.R) types.Currency { return types.Siacoins(uint32(1 + g.Intn(5))) }
+// fee: mostly a few siacoins, sometimes nothing at all (such a transaction is not re-offered after
+// its block is reverted), one hasting (fee rate 0 after the division by the weight) or most of the input
+func (r *Runner) fee(g *rng.R) types.Currency {
+	switch g.Intn(12) {
+	case 0:
+		r.Stats["fee:none"]++
+		return types.ZeroCurrency
+	case 1:
+		r.Stats["fee:one-hasting"]++
+		return types.NewCurrency64(1)
+	case 2:
+		r.Stats["fee:most-of-the-input"]++
+		return types.Siacoins(30)
+	}
+	r.Stats["fee:typical"]++
+	return types.Siacoins(uint32(1 + g.Intn(5)))
+}
+
+// feeAndPay: the fee and the payment of a fabricated transfer (never more than half of the input)
+func (r *Runner) feeAndPay(g *rng.R, value types.Currency) (f, pay types.Currency) {
+	f, pay = r.fee(g), types.Siacoins(uint32(1+g.Intn(3)))
+	if f.Add(pay).Cmp(value.Div64(2)) > 0 {
+		if !f.IsZero() {
+			f = value.Div64(4)
+		}
+		pay = value.Div64(4)
+	}
+	return
+}
 
 func (r *Runner) mkV1(g *rng.R, at *chaingen.Node, id types.SiacoinOutputID, value types.Currency, extra int) (types.Transaction, Meta) {
 	e := r.W.Env
-	t := e.V1Spend(at.FullState, id, value, fee(g), types.Siacoins(uint32(1+g.Intn(3))), e.Payees[g.Intn(len(e.Payees))], extra, byte(g.Intn(250)))
+	f, pay := r.feeAndPay(g, value)
+	t := e.V1Spend(at.FullState, id, value, f, pay, e.Payees[g.Intn(len(e.Payees))], extra, byte(g.Intn(250)))
 	return t, Meta{SignedAt: at.Height, POK: true}
 }
 
 func (r *Runner) mkV2(g *rng.R, at *chaingen.Node, in types.SiacoinElement, extra int) (types.V2Transaction, Meta) {
 	e := r.W.Env
-	t := e.V2Spend(at.FullState, in, fee(g), types.Siacoins(uint32(1+g.Intn(3))), e.Payees[g.Intn(len(e.Payees))], extra, byte(g.Intn(250)))
+	f, pay := r.feeAndPay(g, in.SiacoinOutput.Value)
+	t := e.V2Spend(at.FullState, in, f, pay, e.Payees[g.Intn(len(e.Payees))], extra, byte(g.Intn(250)))
 	return t, Meta{SignedAt: at.Height, POK: true}
 }
 
@@ -219,6 +249,43 @@ func (r *Runner) Fabricate(g *rng.R, flavor string) *Submission {
 			t, m := r.mkV1(g, tip, e.ID, e.SiacoinOutput.Value, 0)
 			add1(t, m)
 		}
+	case "resubmit-v1", "resubmit-v2":
+		// a transaction that was accepted earlier in this history and is no longer pooled (confirmed, reverted,
+		// evicted, invalidated), submitted again exactly as it was then (v2: with its old basis)
+		pooled := map[types.TransactionID]bool{}
+		for _, t := range pv1 {
+			pooled[t.ID()] = true
+		}
+		for _, t := range pv2 {
+			pooled[t.ID()] = true
+		}
+		if v2 {
+			var cands []OldTx
+			for _, o := range r.Old2 {
+				if bn, ok := r.W.T.ByID[o.Basis.ID]; !pooled[o.V2.ID()] && ok && bn.ChainValid() {
+					cands = append(cands, o)
+				}
+			}
+			if len(cands) == 0 {
+				return nil
+			}
+			o := cands[g.Intn(len(cands))]
+			s.Basis = o.Basis
+			add2(CopyV2(o.V2), o.Meta)
+		} else {
+			var cands []OldTx
+			for _, o := range r.Old1 {
+				if !pooled[o.V1.ID()] {
+					cands = append(cands, o)
+				}
+			}
+			if len(cands) == 0 {
+				return nil
+			}
+			o := cands[g.Intn(len(cands))]
+			add1(o.V1, o.Meta)
+		}
+		r.Stats["resubmitted-after-leaving"]++
 	case "empty-v1", "empty-v2":
 	case "dup-v1", "dup-v2":
 		// the same transaction twice in one set: a fresh one, or (when there is one) a pooled one
@@ -227,9 +294,9 @@ func (r *Runner) Fabricate(g *rng.R, flavor string) *Submission {
 				t := pv2[g.Intn(len(pv2))]
 				m := r.meta(t.ID(), Meta{POK: true})
 				add2(t, m)
-				add2(t.DeepCopy(), m)
+				add2(CopyV2(t), m)
 			} else if fresh() {
-				add2(s.V2s[0].DeepCopy(), s.Metas[0])
+				add2(CopyV2(s.V2s[0]), s.Metas[0])
 			} else {
 				return nil
 			}
@@ -318,6 +385,14 @@ func (r *Runner) Fabricate(g *rng.R, flavor string) *Submission {
 		if conflict && len(used) == 0 {
 			return nil
 		}
+		switch {
+		case k == 0:
+			r.Stats["set-defect-position:first"]++
+		case k == n-1:
+			r.Stats["set-defect-position:last"]++
+		default:
+			r.Stats["set-defect-position:middle"]++
+		}
 		for i := 0; i < n; i++ {
 			if i == k && conflict {
 				e := used[g.Intn(len(used))]
@@ -391,6 +466,98 @@ func (r *Runner) Fabricate(g *rng.R, flavor string) *Submission {
 				}
 			}
 		}
+	case "known-and-conflict-v1", "known-and-conflict-v2":
+		// every kind of member in one set: a pooled transaction, a new one, one that double-spends an input
+		// of another pooled transaction, another new one (any order of the first three)
+		used := r.usedInputs()
+		if len(used) == 0 {
+			return nil
+		}
+		if v2 {
+			var roots []types.V2Transaction
+			for _, t := range pv2 {
+				root := len(t.SiacoinInputs) > 0
+				for _, in := range t.SiacoinInputs {
+					root = root && in.Parent.StateElement.LeafIndex != types.UnassignedLeafIndex
+				}
+				if root {
+					roots = append(roots, t)
+				}
+			}
+			if len(roots) == 0 {
+				return nil
+			}
+			kn := roots[g.Intn(len(roots))]
+			add2(kn, r.meta(kn.ID(), Meta{POK: true}))
+			if !fresh() {
+				return nil
+			}
+			// (an input of another pooled transaction than the known member)
+			var cand []types.SiacoinElement
+			for _, e := range used {
+				own := false
+				for _, in := range kn.SiacoinInputs {
+					own = own || in.Parent.ID == e.ID
+				}
+				if !own {
+					cand = append(cand, e)
+				}
+			}
+			if len(cand) == 0 {
+				return nil
+			}
+			c, m := r.mkV2(g, tip, cand[g.Intn(len(cand))], 0)
+			add2(c, m)
+		} else {
+			tipL := r.W.Info(tip).L
+			var roots []types.Transaction
+			for _, t := range pv1 {
+				root := len(t.SiacoinInputs) > 0
+				for _, in := range t.SiacoinInputs {
+					_, ok := tipL.SC[in.ParentID]
+					root = root && ok
+				}
+				if root {
+					roots = append(roots, t)
+				}
+			}
+			if len(roots) == 0 {
+				return nil
+			}
+			kn := roots[g.Intn(len(roots))]
+			add1(kn, r.meta(kn.ID(), Meta{SignedAt: tip.Height, POK: true}))
+			if !fresh() {
+				return nil
+			}
+			var cand []types.SiacoinElement
+			for _, e := range used {
+				own := false
+				for _, in := range kn.SiacoinInputs {
+					own = own || in.ParentID == e.ID
+				}
+				if !own {
+					cand = append(cand, e)
+				}
+			}
+			if len(cand) == 0 {
+				return nil
+			}
+			e := cand[g.Intn(len(cand))]
+			c, m := r.mkV1(g, tip, e.ID, e.SiacoinOutput.Value, 0)
+			add1(c, m)
+		}
+		// any order of the three, then one more new member
+		for i := len(s.Metas) - 1; i > 0; i-- {
+			j := g.Intn(i + 1)
+			s.Metas[i], s.Metas[j] = s.Metas[j], s.Metas[i]
+			if v2 {
+				s.V2s[i], s.V2s[j] = s.V2s[j], s.V2s[i]
+			} else {
+				s.V1[i], s.V1[j] = s.V1[j], s.V1[i]
+			}
+		}
+		fresh()
+		r.Stats["sets-mixing-known-new-and-conflicting-members"]++
 	case "child-only-v1", "child-only-v2":
 		if v2 {
 			if len(pv2) == 0 {
